@@ -112,13 +112,14 @@ def can_win_by_rules(s: State, i: int) -> bool | None:
     """Independent `can win now`: could player i's full hand win or tie any pot he is eligible
     for, on any board, for any hand type, against the hands shown so far (independent ranking)."""
     types = [t.__name__ for t in s.hand_types]
-    if s.statuses[i] and sum(1 for x in s.statuses if x) == 1:
-        # a lone survivor takes everything, whatever he holds and however many board cards are out
-        return True
     try:
         pots = list(s.pots)
     except Exception:  # noqa: BLE001
         return None
+    if s.statuses[i] and sum(1 for x in s.statuses if x) == 1:
+        # a lone survivor takes everything there is, whatever he holds and however many board cards are out
+        # (with nothing in the middle - an ante refunded by trimming, say - there is nothing to win)
+        return any(p.amount for p in pots)
     inplay = [c for row in s.board_cards for c in row if c] + [c for h in s.hole_cards for c in h if c]
     if len(inplay) != len(set(inplay)):
         # the same card twice (dealt against a dealability warning): the rules rank hands of distinct cards
